@@ -37,7 +37,7 @@ func init() {
 			"Content-described parameters (content: {<media>: {schema}}): 4 locations × media key sets × 10 schemas × JSON and non-JSON texts × one / several / no values × required × allowEmptyValue (verdict only). " +
 			"Cases whose style or explode equals the location's default also run with that keyword left out of the document (style only, explode only, both). " +
 			"Every header case runs twice: as a request parameter (ValidateParameter) and as a response header (ValidateResponse → validateResponseHeader). " +
-			"Whole requests (mode req): ValidateRequest on a route whose path item and operation both declare parameters — exhaustive: {query limit (3 declarations), header X-Seq (2)} declared or not on each level × list order × {one call, ExcludeRequestQueryParams call then default call} × MultiError × 6 requests; seeded: six location/name keys (incl. the same name in path and query) × shuffled lists × 1–4 calls with per-call options (incl. nil Options) and requests; observed per call the failing parameters, after the calls the document's parameter slots. " +
+			"Whole requests (mode req): ValidateRequest on a route whose path item and operation both declare parameters — exhaustive: {query limit (3 declarations), header X-Seq (2)} declared or not on each level × list order × {one call, ExcludeRequestQueryParams call then default call} × MultiError × 6 requests; seeded: six location/name keys (incl. the same name in path and query; declarations with defaulted style/explode, an anyOf composition, and parameters of the classes EnumGoType and CookieExplode) × shuffled lists × 1–4 calls with per-call options (incl. nil Options) and requests; observed per call the failing parameters, after the calls the document's parameter slots. " +
 			"A case is non-trivial when the decoder is actually entered (the driver then reports cell, shape, verdict, value kind, round-trip oracle and model≠spec branches); requests with an empty PathParams map / empty query (early return) count as trivial.",
 		Exhaustive: true,
 		Gen:        genC05,
